@@ -69,14 +69,16 @@ package dutydb
 //@ loop 3 invariant db.proDuties == old(db.proDuties) && db.attDuties == old(db.attDuties) && db.aggDuties == old(db.aggDuties) && db.attPubKeys == old(db.attPubKeys)
 
 //@ func (db *MemDB) storeProposalUnsafe
-//@ props C06 C01
+//@ props C06 C01 C18
+//@ ensures result == nil ==> ncalls("*.Clone") == 1
 //@ assigns db.proDuties
 //@ ensures forallk(s, old(db.proDuties), has(db.proDuties, s) && db.proDuties[s] == old(db.proDuties)[s])
 //@ ensures result != nil ==> db.proDuties == old(db.proDuties)
 //@ canary result != nil
 
 //@ func (db *MemDB) storeAttestationUnsafe
-//@ props C06 C01
+//@ props C06 C01 C18
+//@ ensures result == nil ==> ncalls("*.Clone") == 1
 //@ assigns db.attDuties, db.attPubKeys, db.attKeysBySlot
 //@ ensures forallk(k, old(db.attDuties), has(db.attDuties, k) && db.attDuties[k] == old(db.attDuties)[k])
 //@ ensures forallk(k, old(db.attPubKeys), has(db.attPubKeys, k) && db.attPubKeys[k] == old(db.attPubKeys)[k])
@@ -90,18 +92,20 @@ package dutydb
 //@ canary result != nil
 
 //@ func (db *MemDB) storeSyncContributionUnsafe
-//@ props C06 C01
+//@ props C06 C01 C18
+//@ ensures result == nil ==> ncalls("*.Clone") == 1
 //@ assigns db.contribDuties, db.contribKeysBySlot
 //@ ensures forallk(k, old(db.contribDuties), has(db.contribDuties, k) && db.contribDuties[k] == old(db.contribDuties)[k])
 //@ loop 1 invariant forallk(k, old(db.contribDuties), has(db.contribDuties, k) && db.contribDuties[k] == old(db.contribDuties)[k])
 
 //@ func (db *MemDB) storeAggAttestationUnsafe
-//@ props C06 C01
+//@ props C06 C01 C18
+//@ ensures result == nil ==> ncalls("*.Clone") == 1
 //@ assigns db.aggDuties, db.aggKeysBySlot
 //@ ensures forallk(k, old(db.aggDuties), has(db.aggDuties, k))
 //@ ensures forallk(k, old(db.aggDuties), db.aggDuties[k] == old(db.aggDuties)[k])
 //@ ensures result != nil ==> db.aggDuties == old(db.aggDuties)
-//@ ensures result == nil ==> forallk(k, old(db.aggDuties), k != key ==> db.aggDuties[k] == old(db.aggDuties)[k])
+//@ ensures all(k1, aggKey, all(k2, aggKey, has(old(db.aggDuties), k1) && has(old(db.aggDuties), k2) && db.aggDuties[k1] != old(db.aggDuties)[k1] && db.aggDuties[k2] != old(db.aggDuties)[k2] ==> k1 == k2))
 //@ canary result != nil
 
 //@ func (db *MemDB) Store
@@ -133,21 +137,25 @@ package dutydb
 //@ loop 5 invariant forallk(k, old(db.contribDuties), has(db.contribDuties, k) ==> db.contribDuties[k] == old(db.contribDuties)[k])
 
 //@ func (db *MemDB) AwaitProposal
-//@ props C06
+//@ props C06 C18
+//@ ensures r1 == nil ==> ncalls("*.Clone") == 1
 //@ callreq db.resolveProQueriesUnsafe: len(db.proQueries) >= 1 && db.proQueries[len(db.proQueries)-1].Key == slot && db.proQueries[len(db.proQueries)-1].Response == response && db.proQueries[len(db.proQueries)-1].Cancel == cancel
 //@ ensures ncalls(db.resolveProQueriesUnsafe) == 1
 
 //@ func (db *MemDB) AwaitAttestation
-//@ props C06
+//@ props C06 C18
+//@ ensures r1 == nil ==> ncalls("*.MarshalSSZ") == 1 && ncalls("*.UnmarshalSSZ") == 1 && r0 == clone
 //@ callreq db.resolveAttQueriesUnsafe: len(db.attQueries) >= 1 && db.attQueries[len(db.attQueries)-1].Key == attKey{Slot: slot, CommIdx: commIdx} && db.attQueries[len(db.attQueries)-1].Response == response && db.attQueries[len(db.attQueries)-1].Cancel == cancel
 //@ ensures ncalls(db.resolveAttQueriesUnsafe) == 1
 
 //@ func (db *MemDB) AwaitAggAttestation
-//@ props C06
+//@ props C06 C18
+//@ ensures r1 == nil ==> ncalls("*.Clone") == 1
 //@ callreq db.resolveAggQueriesUnsafe: len(db.aggQueries) >= 1 && db.aggQueries[len(db.aggQueries)-1].Key == aggKey{Slot: slot, Root: attestationRoot, CommitteeIndex: committeeIndex} && db.aggQueries[len(db.aggQueries)-1].Response == response && db.aggQueries[len(db.aggQueries)-1].Cancel == cancel
 //@ ensures ncalls(db.resolveAggQueriesUnsafe) == 1
 
 //@ func (db *MemDB) AwaitSyncContribution
-//@ props C06
+//@ props C06 C18
+//@ ensures r1 == nil ==> ncalls("*.MarshalSSZ") == 1 && ncalls("*.UnmarshalSSZ") == 1 && r0 == clone
 //@ callreq db.resolveContribQueriesUnsafe: len(db.contribQueries) >= 1 && db.contribQueries[len(db.contribQueries)-1].Key == contribKey{Slot: slot, SubcommIdx: subcommIdx, Root: beaconBlockRoot} && db.contribQueries[len(db.contribQueries)-1].Response == response && db.contribQueries[len(db.contribQueries)-1].Cancel == cancel
 //@ ensures ncalls(db.resolveContribQueriesUnsafe) == 1
